@@ -287,3 +287,55 @@ Theorem expt_total : forall a e, wf_big a -> 0 <= e ->
   exists fuel mf r, bignum_expt fuel mf a e = Some r /\ nval r = bval a ^ e /\ canon r /\ wf_num r.
 Proof. exact bignum_expt_total. Qed.
 Print Assumptions expt_total.
+
+(** quot_rem: total correctness.  In each of its four variants the quotient-digit estimate x satisfies
+    0 < |b| * x < 2 * |a1|, so every round strictly decreases |a1| and the loop ends (no bound on the number
+    of rounds is claimed). *)
+From ChibiV Require Import C04.ProofsDivTerm.
+
+Theorem quot_rem_estimate_good : forall a1 b1 d off,
+  words a1 -> words b1 -> (2 <= hi b1)%nat -> val b1 <= val a1 ->
+  qr_guess a1 b1 (hi a1) (hi b1) = (d, off) ->
+  (1 <= off <= hi a1 - 1)%nat /\ 1 <= d < B * B
+  /\ 0 < val b1 * (d * B ^ Z.of_nat (off - 1)) < 2 * val a1.
+Proof. exact qr_guess_good. Qed.
+Print Assumptions quot_rem_estimate_good.
+
+Theorem quot_rem_terminates : forall x y, wf_big x -> wf_big y -> bval y <> 0 ->
+  exists fuel mf q r, quot_rem fuel mf x y = QR q r
+    /\ nval q = Z.quot (bval x) (bval y) /\ nval r = Z.rem (bval x) (bval y) /\ wf_num q /\ wf_num r.
+Proof. exact quot_rem_total. Qed.
+Print Assumptions quot_rem_terminates.
+
+(** hence quotient and remainder (sexp_quotient / sexp_remainder) always return for a non-zero divisor *)
+From ChibiV Require Import C04.ProofsDivTerm2.
+Theorem num_quotient_terminates : forall a b, wf_num a -> wf_num b -> nval b <> 0 ->
+  exists qf mf r, num_quotient qf mf a b = NV r /\ nval r = Z.quot (nval a) (nval b) /\ wf_num r.
+Proof. exact num_quotient_total. Qed.
+Print Assumptions num_quotient_terminates.
+
+Theorem num_remainder_terminates : forall a b, wf_num a -> wf_num b -> nval b <> 0 ->
+  exists qf mf r, num_remainder qf mf a b = NV r /\ nval r = Z.rem (nval a) (nval b) /\ wf_num r.
+Proof. exact num_remainder_total. Qed.
+Print Assumptions num_remainder_terminates.
+
+(** the oracle of the outer correspondence (Spec.qround) is that rounding, and it is the only one *)
+From ChibiV Require Import C04.ProofsSpec.
+Theorem round_ratio_eq_spec : forall qf mf n d R, wf_num n -> wf_num d -> canon d ->
+  1 < nval d -> Z.gcd (nval n) (nval d) = 1 ->
+  ratio_round qf mf n d = NV R -> nval R = qround (nval n) (nval d).
+Proof. exact ratio_round_eq_spec. Qed.
+Print Assumptions round_ratio_eq_spec.
+
+(** Euclid's loop and sexp_ratio_normalize terminate: the result is always an integer or a ratio *)
+From ChibiV Require Import C04.ProofsRatioTerm.
+Theorem euclid_loop_terminates : forall n x y, wf_num x -> wf_num y -> canon y -> Z.abs (nval y) < Z.of_nat n ->
+  exists fuel qf mf g, gcd_loop fuel qf mf x y = Some (Some g).
+Proof. exact gcd_loop_total. Qed.
+Print Assumptions euclid_loop_terminates.
+
+Theorem ratio_normalize_terminates : forall n d, wf_num n -> wf_num d -> canon d -> nval d <> 0 ->
+  exists fuel qf mf, (exists v, ratio_normalize fuel qf mf n d = RInt v)
+                     \/ (exists n' d', ratio_normalize fuel qf mf n d = RRat n' d').
+Proof. exact ratio_normalize_total. Qed.
+Print Assumptions ratio_normalize_terminates.
